@@ -53,11 +53,33 @@ def _call(checker, obls, ctx, decision):
         return {"raised": type(e).__name__}
 
 
+class _ReenteringCtx(dict):
+    """a context mapping whose first lookup makes ANOTHER decision's check run on the same checker instance (what two threads
+    sharing one Guard do, made deterministic): a check may not be disturbed by a check that overlaps it"""
+
+    def __init__(self, data, checker):
+        super().__init__(data)
+        self._checker, self._armed = checker, True
+
+    def get(self, k, default=None):
+        if self._armed:
+            self._armed = False
+            other = {"mfa": True, "auth_level": 9, "consent": {"k": True, "tos": True}, "tos_accepted": True, "captcha_passed": True,
+                     "reauth_age_seconds": 0, "age_verified": True}
+            self._checker.check({"decision": "permit", "obligations": [{"type": "require_mfa"}, {"type": "require_level", "attrs": {"min": 1}}]},
+                                real.Context(attrs=other))
+        return super().get(k, default)
+
+
 def check_impl(obls, ctx, decision="permit"):
     fresh = _call(BasicObligationChecker(), obls, ctx, decision)
     shared = _call(_SHARED, obls, ctx, decision)
     if shared != fresh:
         return {"stateful": True, "fresh": fresh, "shared_instance": shared}
+    if isinstance(ctx, dict):
+        overlapped = _call(_SHARED, obls, _ReenteringCtx(ctx, _SHARED), decision)
+        if overlapped != fresh:
+            return {"stateful": True, "fresh": fresh, "overlapped_by_another_check": overlapped}
     return fresh
 
 
@@ -82,6 +104,11 @@ def run_cases(run: lib.Run, audit: dict):
     add([{"type": "http_challenge", "on": "deny", "attrs": {"scheme": "Basic"}}], {}, "deny")
     add([None, {}, {"type": None}, "x", 5, ["require_mfa"], {"type": "require_mfa"}], {"mfa": False})
     add([None, {}, "x"], {})
+    # a `type` that is not a string (the schema does not forbid it): ignored like any unknown type, the later obligation still counts
+    for odd in (["require_mfa"], {"t": 1}, 5, None, True, [["x"]], {"type": "require_mfa"}):
+        add([{"type": odd}, {"type": "require_mfa"}], {"mfa": False})
+        add([{"type": odd, "on": "permit", "attrs": {"min": 3}}, {"type": "require_level", "attrs": {"min": 3}}], {"auth_level": 1})
+        add([{"type": odd}], {})
     # all ordered pairs (first-failure order) over a reduced pool, against contexts that meet none / the first / the second / both
     pool = [({"type": "require_mfa"}, "mfa"), ({"type": "require_level", "attrs": {"min": 2}}, "auth_level"),
             ({"type": "require_consent", "attrs": {"key": "k"}}, "consent"), ({"type": "require_reauth", "attrs": {"max_age": 60}}, "reauth_age_seconds"),
